@@ -1,6 +1,7 @@
 """C11 - symmetry: ordered/counted joins fire exactly when the != joins fired"""
 from __future__ import annotations
 
+import corr_symmetry
 import semcheck
 import tgen
 import semprop
@@ -12,9 +13,13 @@ RULE = ('oracle cases = programs harvested from /repo/tests (dependency,symmetry
 EXTRA = ['f :- p(A), p(B), q(A,X), q(B,Y), A != B, X < Y.', '1 { a(X,Y) : b(Y) } Q :- p(Q,X,V1), p(A,X,V2), Q != A, V1 != V2.', ':- p(A,S), p(B,S), p(C,S), A != B, B != C, A != C.', 'g(S) :- p(A,S), p(B,S), A != B.', '{p(1..4,a)}. :- p(X,S), p(Y,S), X < Y.']
 
 
+def corr(rng, quick):
+    return corr_symmetry.run(rng, 60 if quick else 2500, corpus_limit=60 if quick else None)
+
+
 def run(ctx) -> int:
     flags = [semcheck.flags_only("symmetry")]
-    return _generic.run_semantic(ctx, MODULE, LEVEL, RULE, flags, 'voc', {'dependency', 'symmetry'}, EXTRA, (110, 700), (80, 3000),
+    return _generic.run_semantic(ctx, MODULE, LEVEL, RULE, flags, 'voc', {'dependency', 'symmetry'}, EXTRA, (110, 700), (80, 3000), corr=[('symmetry', corr)],
                                  n_inst=5, facts_over='in', outp_choices=('auto',), one_to_one=True, generators=[tgen.GENERATORS['symmetry']],
                                  assumptions=("the pass's syntactic decisions are not derived from the ground-level side conditions in Lean (validated by the oracle)", 'instances range over the declared/auto-detected input predicates only'))
 
